@@ -151,7 +151,7 @@ func (enc Encryptor) Encrypt(pt *Plaintext, ct interface{}) (err error) {
 	} else {
 		switch ct := ct.(type) {
 		case *Ciphertext:
-			*ct.MetaData = *pt.MetaData
+			*ct.MetaData = *pt.MetaData.CopyNew()
 			level := utils.Min(pt.Level(), ct.Level())
 			ct.Resize(ct.Degree(), level)
 			if err = enc.EncryptZero(ct); err != nil {
